@@ -7,6 +7,8 @@ variant / field, directly or through lets), whether `IdentExt::unraw` was applie
 feeds: a `format_ident!` (an `r#` inside makes the macro panic), a template literal (generated code
 shows the wrong name), a lookup, or a diagnostic.
 """
+import re
+
 from .. import ast as A
 from .. import tpl as T
 from .. import types as TY
@@ -291,4 +293,34 @@ def rule_raw_id(ctx):
                         "for a raw identifier (`r#type`) the text contains `r#` and `format_ident!` panics (\"not a valid identifier\")",
                         {},
                     )
+    # (d) an identity `format_ident!("{}", ident)` / `format_ident!("{ident}")` of an *identifier-typed* value copies the
+    # identifier but strips its `r#` prefix (IdentFragment for Ident): the keyword itself is emitted
+    nid = 0
+    for fn in A.all_functions(ctx.files):
+        if not fn.file.rel.startswith("impl/src"):
+            continue
+        for fi in T.format_idents_of(fn):
+            pat = fi["pattern"] or ""
+            m = re.fullmatch(r"\{(\w*)\}", pat)
+            if not m:
+                continue
+            nid += 1
+            var = m.group(1)
+            if not var:
+                a = fi["args"][0] if fi["args"] else []
+                ids = A.token_idents(a)
+                var = ids[0] if len(a) == 1 and ids else None
+            if not var:
+                continue
+            ty, _b = TY.var_type_at(ctx, fn, var, fi["span"][0])
+            ctx.instance(f"{fn.file.rel}::{fn.qual}:format_ident!({pat!r}):{var}", sample={"site": f"{fn.file.rel}:{fi['line']}", "argument": var, "type": ty})
+            if ty and re.search(r"\bIdent\b", ty):
+                ctx.report(
+                    okey(f"{fn.file.rel}::{fn.qual}:format_ident!({pat}):identity-of-ident:{var}"),
+                    f"{fn.file.rel}:{fi['line']}",
+                    f"`format_ident!({pat!r}, ..)` in `{fn.qual}` re-creates the identifier `{var}` (type `{ty}`): `format_ident!` strips the `r#` prefix of identifier arguments, "
+                    "so a raw field / variant name (`r#type`) is emitted as the bare keyword `type` and the expansion does not parse; use the identifier itself",
+                    {},
+                )
+    ctx.floor("identity format_ident! sites", nid, 15)
     ctx.floor("Ident->text conversions located", n, 25)
